@@ -205,6 +205,10 @@ pub fn call<P: Pat>(
 
 #[derive(Clone, Copy)]
 struct Scenario {
+    /// creator record used by the (faulty) call instead of record 1 (0 = default); 6 = FlatBuffers without schema
+    cfg: usize,
+    /// no fault positions: the call fails on its own
+    dry_only: bool,
     name: &'static str,
     pre_create: bool,   // node 1 holds the service (created with record 1)
     pre_open: bool,     // node 0 already holds a handle of it (slot 0)
@@ -214,13 +218,14 @@ struct Scenario {
 }
 
 const SCENARIOS: &[Scenario] = &[
-    Scenario { name: "create@absent", pre_create: false, pre_open: false, kind: Kind::Create, creator_cfg: true, needs_ooc: false },
-    Scenario { name: "open@exists", pre_create: true, pre_open: false, kind: Kind::Open, creator_cfg: false, needs_ooc: false },
-    Scenario { name: "ooc@absent", pre_create: false, pre_open: false, kind: Kind::Ooc, creator_cfg: true, needs_ooc: true },
-    Scenario { name: "ooc@exists", pre_create: true, pre_open: false, kind: Kind::Ooc, creator_cfg: true, needs_ooc: true },
-    Scenario { name: "open2@exists", pre_create: true, pre_open: true, kind: Kind::Open, creator_cfg: false, needs_ooc: false },
-    Scenario { name: "create@exists", pre_create: true, pre_open: false, kind: Kind::Create, creator_cfg: true, needs_ooc: false },
-    Scenario { name: "open@absent", pre_create: false, pre_open: false, kind: Kind::Open, creator_cfg: false, needs_ooc: false },
+    Scenario { cfg: 0, dry_only: false, name: "create@absent", pre_create: false, pre_open: false, kind: Kind::Create, creator_cfg: true, needs_ooc: false },
+    Scenario { cfg: 0, dry_only: false, name: "open@exists", pre_create: true, pre_open: false, kind: Kind::Open, creator_cfg: false, needs_ooc: false },
+    Scenario { cfg: 0, dry_only: false, name: "ooc@absent", pre_create: false, pre_open: false, kind: Kind::Ooc, creator_cfg: true, needs_ooc: true },
+    Scenario { cfg: 0, dry_only: false, name: "ooc@exists", pre_create: true, pre_open: false, kind: Kind::Ooc, creator_cfg: true, needs_ooc: true },
+    Scenario { cfg: 0, dry_only: false, name: "open2@exists", pre_create: true, pre_open: true, kind: Kind::Open, creator_cfg: false, needs_ooc: false },
+    Scenario { cfg: 0, dry_only: false, name: "create@exists", pre_create: true, pre_open: false, kind: Kind::Create, creator_cfg: true, needs_ooc: false },
+    Scenario { cfg: 6, dry_only: true, name: "createfb@absent", pre_create: false, pre_open: false, kind: Kind::Create, creator_cfg: true, needs_ooc: false },
+    Scenario { cfg: 0, dry_only: false, name: "open@absent", pre_create: false, pre_open: false, kind: Kind::Open, creator_cfg: false, needs_ooc: false },
 ];
 
 struct State<'a> {
@@ -284,7 +289,7 @@ fn one_run<P: Pat>(st: &mut State, si: usize, sc: &Scenario, k: i64, ei: usize, 
         obs!();
         // ---- the faulty call (node 0)
         let slot = if sc.pre_open { 1 } else { 0 };
-        let c = if sc.creator_cfg { 1 } else { plain };
+        let c = if sc.cfg > 0 { sc.cfg } else if sc.creator_cfg { 1 } else { plain };
         let n0 = st.shim.count();
         let arm = if k > 0 { Some((st.shim, k, errno)) } else { None };
         let (r_, f_) = call::<P>(&mut cx, &mut actors[0], sc.kind, c, slot, arm);
@@ -384,6 +389,9 @@ pub fn run<P: Pat>(args: &Args) -> Value {
         if sc.needs_ooc && !P::HAS_OOC {
             continue;
         }
+        if sc.cfg > cfg_set(P::NAME, false).cfgs.len() {
+            continue;
+        }
         if let Some(o) = &only {
             if o != sc.name {
                 continue;
@@ -413,7 +421,7 @@ pub fn run<P: Pat>(args: &Args) -> Value {
         };
         positions.push(json!({"scenario": sc.name, "si": si, "calls": kk}));
         // the positions of this scenario: all, or a seeded sample (independent of a resume)
-        let mut ks: Vec<i64> = (1..=kk).collect();
+        let mut ks: Vec<i64> = if sc.dry_only { vec![] } else { (1..=kk).collect() };
         if sample > 0 && ks.len() > sample {
             let mut rng = Rng::new(seed ^ 0xFA17_0000 ^ ((P::NAME.as_bytes()[0] as u64) << 8) ^ ((si as u64) << 20));
             let mut pick = vec![];
